@@ -3,9 +3,9 @@
 import json,re,os
 res={}
 for l in open('/verif/seeded/results.log'):
-    m=re.match(r'^(C\d\d-\d)\s*\((.*?)\)\s*:\s*(.*)$',l.strip())
+    m=re.match(r'^(C\d\d-\d+)\s*\((.*?)\)\s*:\s*(.*)$',l.strip())
     if not m:
-        m2=re.match(r'^(C\d\d-\d)\s+(.*?):\s*(.*)$',l.strip())
+        m2=re.match(r'^(C\d\d-\d+)\s+(.*?):\s*(.*)$',l.strip())
         if m2: res.setdefault(m2.group(1),{}).setdefault('extra',[]).append(m2.group(2).strip()+': '+m2.group(3))
         continue
     k=m.group(1); d=res.setdefault(k,{})
